@@ -49,6 +49,42 @@ theorem run_frozen (σ : Sig F) (ops : List (Op F V)) :
       rw [this]
       exact ih (step_frozen_train σ h op hc')
 
+theorem frozen_not_persisted' {k : FClass} (h : k.frozen = true) : k.persisted = false := by
+  cases k <;> simp_all [FClass.frozen, FClass.persisted]
+
+/-- … and even after the re-applied part alone: an option written into a persisted field touches no
+configuration or constructor field -/
+theorem run_frozen_min (σ : Sig F) (ops : List (Op F V)) :
+    ∀ {a b : MState F V}, FrozenEq σ a b → FrozenEq σ (run σ a ops) (run σ b (cfgMin σ ops)) := by
+  induction ops with
+  | nil => intro a b h; exact h
+  | cons op ops ih =>
+    intro a b h
+    by_cases hr : op.isReapplied σ = true
+    · have : cfgMin σ (op :: ops) = op :: cfgMin σ ops := by simp [cfgMin, List.filter, hr]
+      rw [this]
+      have hc : op.isConfig = true := by
+        cases op <;> simp_all [Op.isReapplied, Op.isConfig]
+      exact ih (step_frozen_config σ h op hc)
+    · have hr' : op.isReapplied σ = false := by simpa using hr
+      have : cfgMin σ (op :: ops) = cfgMin σ ops := by simp [cfgMin, List.filter, hr']
+      rw [this]
+      apply ih
+      cases op with
+      | train u => exact step_frozen_train σ h _ rfl
+      | observe => exact step_frozen_train σ h _ rfl
+      | mode m => simp [Op.isReapplied] at hr'
+      | setOpt g v =>
+        have hp : (σ.kind g).persisted = true := by simpa [Op.isReapplied] using hr'
+        refine ⟨fun f hf => ?_, h.training⟩
+        have hfg : f ≠ g := by
+          intro e; subst e
+          rw [frozen_not_persisted' hf] at hp; cases hp
+        simp only [step]
+        split
+        · simp [hfg, h.val f hf]
+        · exact h.val f hf
+
 theorem step_present (σ : Sig F) (hl : NoLate σ) (s : MState F V) (op : Op F V) (f : F)
     (hp : (σ.kind f).persisted = true) : (step σ s op).present f = s.present f := by
   cases op with
